@@ -132,6 +132,12 @@ pub async fn run_socket_worker(
     let mut incoming = listener.incoming();
 
     while let Some(stream) = incoming.next().await {
+        // Verification hook: fault injection point
+        #[cfg(aquatic_verif)]
+        if aquatic_common::verif::fault("ws_socket", worker_index) {
+            return Ok(());
+        }
+
         match stream {
             Err(err) => {
                 ::log::error!("accept connection: {:#}", err);
